@@ -435,6 +435,30 @@ AuxInst(m, n, v) ==
 AuxCases == {[m |-> s[1], n |-> s[2], v |-> v] : s \in Shapes2, v \in {0, 1}}
 
 (****************************************************************************)
+(* Band Cholesky (Dpbtrf, Dpbtf2, Dpbtrs):  A = L0 * D * L0^T with L0 lower *)
+(* triangular of bandwidth kd (diagonal 2^k, integers in -2..2 inside the   *)
+(* band), D = I (variant 0) or one d_k = -1 (variant 1, ok = false).  A has *)
+(* bandwidth kd and its Cholesky factor is L0.  B = A*X0.  Matrices are     *)
+(* printed in full; the harness packs the band storage.                     *)
+(****************************************************************************)
+PbInst(n, kd, v) ==
+  LET kb == IF v = 1 THEN H(n, kd, 91) % n ELSE -1
+      d(k) == IF k = kb THEN -1 ELSE 1
+      L == Mat(n, n, LAMBDA i, j : IF i = j THEN Pow2(H(i, i, 92) % 3)
+                                   ELSE IF j < i /\ i - j <= kd THEN (H(i, j, 93) % 5) - 2 ELSE 0)
+      A == Mat(n, n, LAMBDA i, j : IF Abs(i - j) > kd THEN 0
+                                   ELSE SumR(LAMBDA k : L[i][k] * d(k) * L[j][k], Max(0, Max(i, j) - kd), Min(i, j)))
+      R == IF v = 0 THEN Nrhs ELSE 0
+      X == Mat(n, R, LAMBDA i, j : (H(i, j, 94) % 9) - 4)
+      B == Mat(n, R, LAMBDA i, j : SumR(LAMBDA k : A[i][k] * X[k][j], Max(0, i - kd), Min(n - 1, i + kd)))
+  IN [fam |-> "pb", m |-> n, n |-> n, kd |-> kd, v |-> v, den |-> 1, ok |-> (v = 0), kbad |-> kb, R |-> R,
+      A |-> MatSeq(A, n, n), L |-> MatSeq(L, n, n), X |-> MatSeq(X, n, R), B |-> MatSeq(B, n, R),
+      tol |-> 30 * Max(n, 1) * Norm1(A, n, n)]
+
+PbCases == {[n |-> n, kd |-> kd, v |-> v] : n \in 0 .. Small, kd \in 0 .. Small, v \in {0, 1}}
+             \cup {[n |-> b \div 1000, kd |-> b % 1000, v |-> v] : b \in Big, v \in {0, 1}}
+
+(****************************************************************************)
 Cases == CASE Fam = "lu" -> {x \in LuCases : LuValid(x)}
            [] Fam = "chol" -> {x \in ChCases : ChValid(x)}
            [] Fam = "qr" -> QrCases
@@ -443,6 +467,7 @@ Cases == CASE Fam = "lu" -> {x \in LuCases : LuValid(x)}
            [] Fam = "ls" -> {z \in LsCases : z.m >= z.n /\ (z.v = 0 \/ z.n >= 1)}
            [] Fam = "td" -> {z \in TdCases : z.n >= 1 \/ z.v = 0}
            [] Fam = "aux" -> AuxCases
+           [] Fam = "pb" -> {z \in PbCases : z.v = 0 \/ z.n >= 1}
            [] Fam = "larft" -> {x \in LarftCases : x.n <= x.m}
 
 Inst(x) == CASE Fam = "lu" -> LuInst(x.m, x.n, x.v)
@@ -453,6 +478,7 @@ Inst(x) == CASE Fam = "lu" -> LuInst(x.m, x.n, x.v)
              [] Fam = "ls" -> LsInst(x.m, x.n, x.v)
              [] Fam = "td" -> TdInst(x.n, x.v)
              [] Fam = "aux" -> AuxInst(x.m, x.n, x.v)
+             [] Fam = "pb" -> PbInst(x.n, x.kd, x.v)
              [] Fam = "larft" -> LarftInst(x.m, x.n, x.v)
 
 Init == cs \in Cases
